@@ -29,6 +29,7 @@ import (
 //	                   answer's message
 //	R-any-member      an interface{} member of a result is stored as decoded, not narrowed to one Go type
 //	R-fresh-buffer    (shared with C01) a reader loop decodes each message into a buffer of its own
+//	R-error-envelope  no client transport hands the bare content of an "error" member upwards as the raw answer
 //	R-unbounded-frames the per-call SSE reader imposes no practical line-length limit
 func init() { Registry["C02"] = checkC02 }
 
@@ -357,6 +358,7 @@ func checkC02(c *Ctx) {
 	checkC09(c)
 	c.R.Explanation, c.R.NotDecided, c.R.Assumptions = expl+" The stream-integrity rules of C09 (R-field-writer, R-shared-writer, R-frame-atomic, R-payload) are evaluated as well.", nd, as
 	c01FreshBuffer(c) // a message handed to a caller must not share its buffer with the next one read
+	c02ErrorEnvelope(c)
 
 	// ---- R-unbounded-frames: the reader that returns a call's answer must not impose a line-length limit
 	// (bufio.Scanner stops with ErrTooLong beyond its token limit; a multi-megabyte result is one data line)
@@ -886,4 +888,117 @@ func c02AnswerStatusOK(c *Ctx, rule string) {
 		}
 	}
 	c.R.Min(rule, 1)
+}
+
+// ---------------------------------------------------------------- R-error-envelope
+// The client recognises a failed call by the top-level "error" member of what the transport hands it, and builds the Go
+// error (code, message) from that envelope. A transport must therefore never hand upwards the bare content of the
+// "error" member — a value loaded from a struct member tagged json:"error", or looked up under the constant key "error" —
+// as if it were the answer: such an object has no "error" member, is taken for a result, and the handler's error
+// reaches the caller as an empty success. Checked on the client side: no such value flows (through conversions,
+// json.Marshal, local variables) into a json.RawMessage that is returned or sent on a channel.
+func c02ErrorEnvelope(c *Ctx) {
+	isRaw := func(t types.Type) bool {
+		s := ir.TypeStr(t)
+		return s == "encoding/json.RawMessage" || s == "*encoding/json.RawMessage"
+	}
+	tagName := func(st *types.Struct, i int) string {
+		return strings.Split(reflect.StructTag(st.Tag(i)).Get("json"), ",")[0]
+	}
+	nSrc := 0
+	for _, fn := range c.P.LibFns {
+		if !clientSide(c, fn) {
+			continue
+		}
+		ir.EachInstr(fn, func(_ *ssa.BasicBlock, _ int, in ssa.Instruction) {
+			var src ssa.Value
+			switch x := in.(type) {
+			case *ssa.UnOp:
+				if fa, ok := x.X.(*ssa.FieldAddr); ok && x.Op == token.MUL {
+					if pt, ok := fa.X.Type().Underlying().(*types.Pointer); ok {
+						if st, ok := pt.Elem().Underlying().(*types.Struct); ok && tagName(st, fa.Field) == "error" {
+							src = x
+						}
+					}
+				}
+			case *ssa.Field:
+				if st, ok := x.X.Type().Underlying().(*types.Struct); ok && tagName(st, x.Field) == "error" {
+					src = x
+				}
+			case *ssa.Lookup:
+				if k, ok := ir.ConstStr(x.Index); ok && k == "error" {
+					src = x
+				}
+			}
+			if src == nil {
+				return
+			}
+			nSrc++
+			seen := map[ssa.Value]bool{}
+			var sink ssa.Instruction
+			var visit func(v ssa.Value, d int)
+			visit = func(v ssa.Value, d int) {
+				if v == nil || v.Referrers() == nil || d > 8 || seen[v] || sink != nil {
+					return
+				}
+				seen[v] = true
+				for _, r := range *v.Referrers() {
+					switch y := r.(type) {
+					case *ssa.Convert:
+						visit(y, d+1)
+					case *ssa.ChangeType:
+						visit(y, d+1)
+					case *ssa.MakeInterface:
+						visit(y, d+1)
+					case *ssa.Phi:
+						visit(y, d+1)
+					case *ssa.Slice:
+						visit(y, d+1)
+					case *ssa.Extract:
+						if y.Index == 0 {
+							visit(y, d+1)
+						}
+					case *ssa.Call:
+						if ir.CallName(y) == "encoding/json.Marshal" {
+							visit(y, d+1)
+						}
+					case *ssa.Store:
+						if y.Val == v {
+							// the variable now holds it: its address and its loads carry it on
+							if al, ok := y.Addr.(*ssa.Alloc); ok {
+								visit(al, d+1)
+							}
+						}
+					case *ssa.UnOp:
+						if y.Op == token.MUL {
+							visit(y, d+1)
+						}
+					case *ssa.Send:
+						if y.X == v && isRaw(v.Type()) {
+							sink = y
+						}
+					case *ssa.Select:
+						for _, st := range y.States {
+							if st.Send == v && isRaw(v.Type()) {
+								sink = y
+							}
+						}
+					case *ssa.Return:
+						if isRaw(v.Type()) {
+							sink = y
+						}
+					}
+				}
+			}
+			visit(src, 0)
+			if sink != nil {
+				c.R.Violate("R-error-envelope", sprintf("content of the \"error\" member handed on by %s", fname(fn)), c.Pos(sink.Pos()),
+					sprintf("%s hands on the bare content of a message's \"error\" member as the raw answer (%s): the client looks for a top-level \"error\" member to recognise a failure, finds none, and decodes the object as a result — a handler's error reaches the caller as an (empty) success, its code and message lost", fname(fn), c.Pos(src.Pos())))
+			}
+		})
+	}
+	c.R.Hold("R-error-envelope", "uses of the \"error\" member on the client side", "", sprintf("%d loads / lookups of an \"error\" member examined; none is handed on as a raw answer", nSrc))
+	if nSrc < 3 {
+		c.R.Break("R-error-envelope: only %d uses of an \"error\" member found on the client side", nSrc)
+	}
 }
